@@ -491,7 +491,11 @@ def _await_descriptor_upload(tor_protocol, onion, progress, await_all_uploads):
                 )
                 if uploaded.called:
                     pass
-                elif failed_uploads == attempted_uploads:
+                elif attempted_uploads and attempted_uploads <= failed_uploads:
+                    # every upload we saw announced has failed (Tor
+                    # also sends FAILED with our address for things
+                    # that are no upload of ours, e.g. a client's
+                    # failed descriptor fetch: those don't count)
                     msg = "Failed to upload '{}' to: {}".format(
                         args[1],
                         ', '.join(failed_uploads),
